@@ -1,4 +1,4 @@
-import RV.Proofs.CacheFifoHit
+import RV.Proofs.CacheFifoSpecRun
 import RV.Props.C05
 /-!
 # C06 — With room to spare the cache is a faithful map; Wait makes writes visible
@@ -20,15 +20,31 @@ every interleaving, every lag of the applier, every concurrent activity on other
 * `entry_stays_retrievable` (g): from then on every `Get` of the key returns that value until a
   `Set`/`Del` of the key, a `Clear`/`Close`, an eviction of the key or the expiry of its TTL.
 * `c06_refines_partial`: the two together, end to end: `Set k v` (returns true), `Wait`, then any
-  number of `Get k` — all return `v`.
+  number of `Get k` — all return `v` (any number of clients on other keys).
 
-NOT proved: the simulation of *arbitrary* single-client call sequences by the reference
-`MapSpec + FifoSpec` of DESIGN §5 (`c06_refines`).  What is proved is the per-key content of that
-simulation: the case "new key" (above), the case "resident key" (`overwrite_immediate`), the case
-"deleted key" (C05), the frame (`stays_until`) and the FIFO/`Wait` discipline (`wait_applies_all`,
-`C05.fifo_order`).  A second `Set` of a key whose first new-item is still pending is *rejected* by
-the applier (`policy.Add` reports an update, `processItems` calls `onReject`): the property's
-side condition "neither resident nor already pending" is necessary, see `second_new_rejected`.
+* `c06_refines`: **the refinement.**  Every run of the model from its initial state in which a
+  single client issues `Set`/`SetWithTTL`/`Get`/`GetTTL`/`Del`/`Wait` calls, with the applier, the
+  sweep and the clock interleaved arbitrarily, is matched step by step by a run of the reference
+  `Spec` (`RV/Proofs/CacheFifoSpec.lean`: a map `hash ⇀ (conflict, value, expiration)`, the set of
+  accounted keys, an explicit FIFO of pending writes, a clock — no capacity, no policy, no expiry
+  index, no blocked senders, no applier sub-steps) with the same history of calls and results
+  (`obsOf`), ending in `SimR`-related states (same map, same pending sequence, same clock).
+  Reference transitions: the atomic sections of the five calls (`specClient`; whether a `Set`'s
+  item is enqueued or dropped is the environment's choice — a dropped new `Set` returns false and
+  changes nothing), `apply` (pop the oldest pending write and apply it atomically: a new-item
+  inserts unless its key is accounted, then it is rejected; a tombstone erases; update-items and
+  markers do nothing), `expire` (drop an entry with `exp ≠ 0 ∧ exp ≤ clock`), `tick`.
+  Hypotheses: one client tid; only the five map calls (no `Clear`/`Close`/`IterValues`/
+  `UpdateMaxCost`); `ShouldUpdate` unset; `RoomAt` in every state of the run (whenever the applier
+  offers a new-item to `policy.Add`, `cost ≤ MaxCost` and `used + cost ≤ MaxCost` — then
+  `room_admits` forces "admit, no victims").  `CollisionFree` is NOT needed: the reference keeps the
+  conflict checks of `lockedMap`.  The callbacks (`OnExit`/`OnEvict`/`OnReject`) are not part of the
+  observable history (they are C04's subject).
+
+A second `Set` of a key whose first new-item is still pending is *rejected* by the applier
+(`policy.Add` reports an update, `processItems` calls `onReject`) — in the model and in the
+reference alike; the property's side condition "neither resident nor already pending" is
+necessary, see `second_new_rejected`.
 -/
 namespace RV.C06
 open RV RV.Cache RV.Cache.Fifo
@@ -338,5 +354,57 @@ example : EraseCause cfgX stX (.applier .none) ((step cfgX stX (.applier .none))
     (by
       have : ((step cfgX stX (.applier .none)).get st_step_ok).store.lookup kX = none := by rfl
       rw [this]; simp)
+
+/-! ## The refinement -/
+
+/-- **`c06_refines`.**  Every observable result equals that of the reference map with an explicit
+FIFO of pending writes: for every run of the model from its initial state whose actions are
+`ActOk t0` (a single client `t0` issuing only `Set`/`SetWithTTL`/`Get`/`GetTTL`/`Del`/`Wait`;
+applier, sweep and clock steps arbitrary), with `ShouldUpdate` unset and `RoomAt` in every state of
+the run, there is a run of the reference `Spec` from its initial state with the same history of
+call and return events (`obsOf s.log`, results included), ending in a state related to `s` by
+`SimR` (same map, same pending sequence up to costs, same clock and marker counter, same call
+phase). -/
+theorem c06_refines {cfg : Cfg} {t0 : Tid} {now : Time} {s : State} {acts : List Action}
+    (hsu : cfg.shouldUpdate = none) (hacts : ∀ a ∈ acts, ActOk t0 a)
+    (hr : run cfg (init cfg now) acts = some s)
+    (hroom : ∀ as1 as2 s1, acts = as1 ++ as2 → run cfg (init cfg now) as1 = some s1 → RoomAt s1) :
+    ∃ sp, SpecRun t0 (Spec.init now) (obsOf s.log) sp ∧ SimR t0 s sp :=
+  sim_run hsu hacts hr hroom
+
+/-- one step of the refinement: a model step is matched by one reference transition (possibly a
+stutter) with the same observable events -/
+theorem c06_refines_step {cfg : Cfg} {t0 : Tid} {s s' : State} {sp : Spec} {a : Action}
+    (hsu : cfg.shouldUpdate = none) (hr : Reach cfg s) (hR : SimR t0 s sp) (hroom : RoomAt s)
+    (hact : ActOk t0 a) (hs : step cfg s a = some s') :
+    ∃ sp' evs, SpecStep t0 sp evs sp' ∧ SimR t0 s' sp' ∧ obsOf s'.log = evs ++ obsOf s.log :=
+  sim_step hsu hr hR hroom hact hs
+
+/-- what the relation gives at any point of the run: the reference's map is the store, its FIFO
+is the pending sequence (costs erased), and `Get`'s answer is computed from the reference map -/
+theorem simR_reads {t0 : Tid} {s : State} {sp : Spec} (hR : SimR t0 s sp) (h : Hash) :
+    sp.map h = s.store.lookup h ∧ sp.pend = pendE s ∧ sp.clock = s.clock :=
+  ⟨hR.map h, hR.pend, hR.clock⟩
+
+/-- `RoomAt` follows from the decidable check used in the examples -/
+theorem roomAt_of_check {s : State} (h : roomB s = true) : RoomAt s := room_of_B h
+
+/-- the single-client run `Set k 11; Set k 12` (both buffered), `Del k` with the applier parked,
+applier applies new, new (rejected), tombstone; `Wait`; `Get k` -/
+def actsS : List Action := (C05.preA ++ C05.restA) ++ C05.getA
+
+/-- Non-vacuity of `c06_refines`: the hypotheses hold for `actsS` (client 1 only; every new-item
+fits: MaxCost 100), and the matched history contains two `Set`s returning true, the `Del`, the
+`Wait` and a `Get` that misses. -/
+example : ∃ sp, SpecRun 1 (Spec.init 0) (obsOf C05.sA'.log) sp ∧ SimR 1 C05.sA' sp :=
+  c06_refines (cfg := cfgX) (t0 := 1) (acts := actsS) rfl
+    (fun a ha => actOk_of_B (List.all_eq_true.mp (by rfl : actsS.all (actOkB 1) = true) a ha))
+    (by simp [C05.sA', actsS])
+    (fun as1 as2 s1 hsplit hrun =>
+      room_of_B (runAllB_spec (by rfl : runAllB cfgX roomB (init cfgX 0) actsS = true) as1 as2 s1 hsplit hrun))
+
+example : obsOf C05.sA'.log =
+    [.getRet 1 kX 0#64 none, .getCall 1 kX 0#64 0, .waitRet 1, .waitCall 1, .delRet 1 kX, .delCall 1 kX 0#64,
+     .setRet 1 12 true, .setCall 1 kX 0#64 12 1 0, .setRet 1 11 true, .setCall 1 kX 0#64 11 1 0] := by rfl
 
 end RV.C06
